@@ -61,6 +61,17 @@ def handle : Handler
     let unm := evs.contains .unmodelled
     pure { out := (if unm then impl else evTokens evs), spec := ok, specNote := note,
            tag := "serve:" ++ evTag evs ++ (if endK == "stall" then "S" else "E") ++ ":" ++ (if ok then note else "") }
+  | ["redir", _m, _t, pfx], impl => do
+    -- the redirect paths of the router (`redirectTrailingSlash`, `redirectFixedPath`) feed the peer-controlled
+    -- `X-Forwarded-Prefix` header to `utils.CleanPath`; the Location they build is not modelled, the C03 clauses are:
+    -- no panic, no hang, exactly one well-formed response, a handler ran iff the status is 200
+    let p ← hx pfx
+    let ok := match impl with
+      | ["R", "1", st, _cl, "W", "1", "H", h] =>
+        (st == "200" && h == "1") || ((st == "301" || st == "307" || st == "404" || st == "400") && h == "0")
+      | _ => false
+    pure { out := impl, spec := ok, specNote := "one clean response, no panic, for every X-Forwarded-Prefix value",
+           tag := "redir:" ++ impl.getD 2 "?" ++ ":" ++ sizeClass p.length }
   | _, _ => none
 
 end Hertz.Driver.H1
